@@ -74,7 +74,7 @@ def generate(rng, tier, idx):
         for _ in range(rng.choice([0, 0, 1, 1, 2, 3])):
             faults.append([rng.choice(['drop', 'dup', 'move', 'insert', 'cut', 'nofinal', 'crlf', 'lead-blank', 'trail-blank',
                                        'trail-entry', 'lead-entry', 'undash', 'adddash', 'inject-hdr', 'concat', 'trail-ws',
-                                       'flip-body', 'swap-sig', 'sig-entry', 'long-line', 'long-line', 'long-blank', 'long-blank', 'trail-nul', 'lf-to-other', 'lf-to-other']), rng.randrange(0, 1000), rng.randrange(0, 1000)])
+                                       'flip-body', 'swap-sig', 'sig-entry', 'long-line', 'long-line', 'long-blank', 'long-blank', 'trail-nul', 'lf-to-other', 'lf-to-other', 'dash5-split', 'dash5-split']), rng.randrange(0, 1000), rng.randrange(0, 1000)])
         if any('\U0001F600' in l for l in payload) and rng.random() < 0.6:
             # the line with multi-byte characters padded to just under the limit counted in characters
             faults.append(['long-line-mb', rng.randrange(0, 1000), rng.choice([6, 7])])
@@ -401,6 +401,18 @@ def apply_fault(lines, f, sc):
             ch = ('\x0c', '\x0b', '\x1c', '\x1d', '\x1e', '\x85', '\u2028', '\u2029')[b % 8]
             lines[j] = lines[j] + ch + lines[j + 1]
             del lines[j + 1]
+    elif k == 'dash5-split':
+        # gpg ends the cleartext at ANY line that starts with five dashes, reads what follows as armor headers up to an
+        # empty line, skips a packet of unknown type and accepts the real signature block after it: everything between
+        # is unhashed
+        try:
+            j = lines.index(BG)
+        except ValueError:
+            j = None
+        if j is not None:
+            junk = ('-----XXXXXXXXXXXXXXX', '-----FOO', '-----BEGIN', '-----END PGP')[a % 4]
+            hdr = ('DATA evil.sh 5 SHA512 : SHA512 ' + 'e' * 128, 'IGNORE : everything', 'DATA evil 1 MD5 : MD5 ' + 'e' * 32)[b % 3]
+            lines[j:j] = [junk, hdr, '', '4AET', '=+2P8']
     elif k == 'trail-nul':
         body = [j for j, l in enumerate(lines) if l.startswith(('DATA ', 'IGNORE ', 'DIST '))]
         if body:
